@@ -1,5 +1,6 @@
 import ButlerModel.Model.DataId
 import ButlerModel.Props.C12
+import ButlerModel.Model.Front
 /-! # C13 — data IDs mean one thing: standardisation and expansion are consistent -/
 namespace C13
 open Dim DataId
@@ -339,3 +340,150 @@ theorem expandAll_complete (U : Universe) (store : Store) (dr : Nat → Bool) (g
         · exact Or.inr ⟨e', List.mem_cons_of_mem _ he', ks0, hw0, hc⟩
 
 end C13
+
+/-! # Defaulted keys and record-style keys (the Butler front end) -/
+namespace C13.Front
+open _root_.Front
+
+/-! ## defaults -/
+
+/-- the state a `Defaults` object is always in: its value is what `finish` computes from its own
+collections, inference flag and explicit default — nothing is carried over from an earlier object -/
+def WF (h : Holds) (d : Defaults) : Prop := d.value = finish h d.colls d.infer d.explicit
+
+theorem mk_wf (h : Holds) (c : List Nat) (i : Bool) (x : Option Nat) : WF h (mk h c i x) := rfl
+
+theorem clone_wf (h : Holds) (d : Defaults) (c : Option (List Nat)) (i : Option Bool) (x : Option (Option Nat)) :
+    WF h (clone h d c i x) := rfl
+
+/-- **No stale default survives `clone()`**, however long the chain of clones: the value is determined
+by the collections, flag and explicit default the last object ended up with. -/
+theorem clones_wf (h : Holds) : ∀ (cs : List CloneArgs) (d : Defaults), WF h d → WF h (clones h d cs)
+  | [], _, hd => hd
+  | c :: cs, d, _ => by
+    simp only [clones, List.foldl_cons]
+    exact clones_wf h cs _ (clone_wf h d c.colls c.infer c.dataId)
+
+/-- an explicit default always wins -/
+theorem explicit_wins (h : Holds) (c : List Nat) (i : Bool) (v : Nat) : (mk h c i (some v)).value = some v := rfl
+
+/-- an explicit default given to `clone` wins; one given earlier is kept when `clone` is not told otherwise -/
+theorem clone_explicit (h : Holds) (d : Defaults) (c : Option (List Nat)) (i : Option Bool) (v : Nat) :
+    (clone h d c i (some (some v))).value = some v := rfl
+theorem clone_keeps_explicit (h : Holds) (d : Defaults) (c : Option (List Nat)) (i : Option Bool) (v : Nat) (hd : d.explicit = some v) :
+    (clone h d c i none).value = some v := by simp [clone, mk, finish, hd]
+
+theorem mem_eraseDups_iff (l : List Nat) (x : Nat) : x ∈ l.eraseDups ↔ x ∈ l := List.mem_eraseDups
+
+/-- **An inferred default is the value all default collections agree on**: every value any of them
+lists is that value, and at least one lists it. -/
+theorem inferred_sound (h : Holds) (colls : List Nat) (v : Nat) (hi : inferred h colls = some v) :
+    (∀ c ∈ colls, ∀ w ∈ h c, w = v) ∧ ∃ c ∈ colls, v ∈ h c := by
+  unfold inferred at hi
+  split at hi
+  · rename_i v' heq
+    injection hi with hi
+    subst hi
+    have hm : ∀ w, w ∈ colls.flatMap h ↔ w = v' := by
+      intro w
+      rw [← mem_eraseDups_iff, heq]
+      simp
+    refine ⟨fun c hc w hw => (hm w).mp (List.mem_flatMap.mpr ⟨c, hc, hw⟩), ?_⟩
+    obtain ⟨c, hc, hv⟩ := List.mem_flatMap.mp ((hm v').mpr rfl)
+    exact ⟨c, hc, hv⟩
+  · exact absurd hi (by simp)
+
+/-- no default is inferred when two collections disagree -/
+theorem inferred_none_of_disagreement (h : Holds) (colls : List Nat) (c1 c2 : Nat) (v1 v2 : Nat)
+    (h1 : c1 ∈ colls) (h2 : c2 ∈ colls) (m1 : v1 ∈ h c1) (m2 : v2 ∈ h c2) (hne : v1 ≠ v2) : inferred h colls = none := by
+  cases hi : inferred h colls with
+  | none => rfl
+  | some v =>
+    obtain ⟨hall, _⟩ := inferred_sound h colls v hi
+    exact absurd ((hall c1 h1 v1 m1).trans (hall c2 h2 v2 m2).symm) hne
+
+/-- nor when none of them lists a value -/
+theorem inferred_none_of_empty (h : Holds) (colls : List Nat) (he : ∀ c ∈ colls, h c = []) : inferred h colls = none := by
+  cases hi : inferred h colls with
+  | none => rfl
+  | some v =>
+    obtain ⟨_, c, hc, hv⟩ := inferred_sound h colls v hi
+    rw [he c hc] at hv
+    simp at hv
+
+/-- a key the caller wrote is never replaced by a default; a missing one is completed by it or rejected -/
+theorem complete_given (d : Defaults) (v : Nat) : complete d (some v) = some v := rfl
+theorem complete_missing (d : Defaults) : complete d none = d.value := by simp [complete]
+
+example : (clones (fun c => if c = 1 then [7] else if c = 2 then [8] else [])
+    (mk (fun c => if c = 1 then [7] else if c = 2 then [8] else []) [1] true none)
+    [{ colls := some [2] }, {}, { colls := some [2, 1] }]).value = none := by decide
+example : (clones (fun c => if c = 1 then [7] else if c = 2 then [8] else [])
+    (mk (fun c => if c = 1 then [7] else if c = 2 then [8] else []) [1] true none) [{ colls := some [2, 3] }]).value = some 8 := by decide
+
+/-! ## record-style keys -/
+
+theorem find_id {recs : List Rec} {k : Nat} {r : Rec} (h : recs.find? (·.id == k) = some r) : r ∈ recs ∧ r.id = k :=
+  ⟨List.mem_of_find?_eq_some h, by simpa using List.find?_some h⟩
+
+/-- **Accepted means consistent**: the dimension value that comes out names a stored record that
+carries every field value the caller gave; with an explicit value it is that value. -/
+theorem rewrite_sound (recs : List Rec) (explicit : Option Nat) (vals : List (Nat × Nat)) (k : Nat) (hv : vals ≠ [])
+    (h : rewrite recs explicit vals = some k) :
+    (∃ r ∈ recs, r.id = k ∧ carries r vals = true) ∧ (∀ e, explicit = some e → e = k) := by
+  unfold rewrite at h
+  split at h
+  · rename_i e
+    split at h
+    · rename_i r hf
+      split at h
+      · rename_i hc
+        injection h with h
+        subst h
+        exact ⟨⟨r, (find_id hf).1, (find_id hf).2, hc⟩, fun e' he => by injection he with he; exact he.symm⟩
+      · exact absurd h (by simp)
+    · split at h
+      · rename_i hemp
+        exact absurd (List.isEmpty_iff.mp hemp) hv
+      · exact absurd h (by simp)
+  · split at h
+    · rename_i r hf
+      injection h with h
+      subst h
+      have hm : r ∈ recs.filter (carries · vals) := by rw [hf]; simp
+      rw [List.mem_filter] at hm
+      exact ⟨⟨r, hm.1, rfl, hm.2⟩, fun e he => by cases he⟩
+    · exact absurd h (by simp)
+
+/-- **A self-contradictory data ID is rejected**: an explicit value whose record does not carry a
+given field value — whatever is stored there, 0 and NULL included. -/
+theorem contradiction_rejected (recs : List Rec) (k : Nat) (vals : List (Nat × Nat)) (r : Rec)
+    (hf : recs.find? (·.id == k) = some r) (hc : carries r vals = false) : rewrite recs (some k) vals = none := by
+  simp [rewrite, hf, hc]
+
+/-- a stored NULL never equals a given value -/
+theorem null_field_contradicts (r : Rec) (f v : Nat) (vals : List (Nat × Nat)) (hn : fieldOf r f = some none) (hm : (f, v) ∈ vals) :
+    carries r vals = false := by
+  cases hc : carries r vals with
+  | false => rfl
+  | true =>
+    simp only [carries, List.all_eq_true] at hc
+    have := hc (f, v) hm
+    simp [hn] at this
+
+/-- without the value: rejected unless exactly one record carries the fields -/
+theorem ambiguous_rejected (recs : List Rec) (vals : List (Nat × Nat)) (r1 r2 : Rec) (rest : List Rec)
+    (h : recs.filter (carries · vals) = r1 :: r2 :: rest) : rewrite recs none vals = none := by
+  simp [rewrite, h]
+theorem unmatched_rejected (recs : List Rec) (vals : List (Nat × Nat)) (h : recs.filter (carries · vals) = []) :
+    rewrite recs none vals = none := by
+  simp [rewrite, h]
+theorem unique_accepted (recs : List Rec) (vals : List (Nat × Nat)) (r : Rec) (h : recs.filter (carries · vals) = [r]) :
+    rewrite recs none vals = some r.id := by
+  simp [rewrite, h]
+
+def demoRecs : List Rec := [⟨10, [(1, some 0), (2, none)]⟩, ⟨11, [(1, some 1), (2, some 5)]⟩, ⟨12, [(1, some 1), (2, some 6)]⟩]
+example : rewrite demoRecs (some 10) [(1, 0)] = some 10 ∧ rewrite demoRecs (some 10) [(1, 1)] = none ∧ rewrite demoRecs (some 10) [(2, 5)] = none
+    ∧ rewrite demoRecs none [(1, 0)] = some 10 ∧ rewrite demoRecs none [(1, 1)] = none ∧ rewrite demoRecs none [(1, 1), (2, 6)] = some 12 := by decide
+
+end C13.Front
